@@ -393,3 +393,79 @@ Proof.
   intros HF HL HM HC. cbn [expand]. rewrite HF, HL, expand_lines_app, expand_lines_cons, HM.
   destruct c; try congruence; reflexivity.
 Qed.
+
+(* ---- enough fuel: if the \@input relation is well-founded (a rank decreases along it), fuel
+   above the rank of the top file is never exhausted *)
+Lemma expand_lines_deep (erec : str -> list visit * status) name : forall lines k,
+  snd (expand_lines erec name lines k) = Deep ->
+  exists l g, In l lines /\ match_command l = Some (CInput, g) /\ snd (erec g) = Deep.
+Proof.
+  induction lines as [|l rest IH]; intros k H; cbn [expand_lines] in H; [discriminate|].
+  destruct (match_command l) as [[c v]|] eqn:EM.
+  - destruct c.
+    + destruct (expand_lines erec name rest (S k)) as [vs1 s1] eqn:E. cbn [snd] in H. subst s1.
+      destruct (IH (S k)) as [l' [g (H1 & H2 & H3)]]; [rewrite E; reflexivity|]. exists l', g. repeat split; auto. now right.
+    + destruct (expand_lines erec name rest (S k)) as [vs1 s1] eqn:E. cbn [snd] in H. subst s1.
+      destruct (IH (S k)) as [l' [g (H1 & H2 & H3)]]; [rewrite E; reflexivity|]. exists l', g. repeat split; auto. now right.
+    + destruct (expand_lines erec name rest (S k)) as [vs1 s1] eqn:E. cbn [snd] in H. subst s1.
+      destruct (IH (S k)) as [l' [g (H1 & H2 & H3)]]; [rewrite E; reflexivity|]. exists l', g. repeat split; auto. now right.
+    + destruct (erec v) as [vs0 s0] eqn:E0. destruct s0.
+      * destruct (expand_lines erec name rest (S k)) as [vs1 s1] eqn:E. cbn [snd] in H. subst s1.
+        destruct (IH (S k)) as [l' [g (H1 & H2 & H3)]]; [rewrite E; reflexivity|]. exists l', g. repeat split; auto. now right.
+      * discriminate.
+      * exists l, v. repeat split; auto; [now left|rewrite E0; reflexivity].
+  - destruct (IH (S k) H) as [l' [g (H1 & H2 & H3)]]. exists l', g. repeat split; auto. now right.
+Qed.
+
+Theorem enough_fuel_l fs (rank : str -> nat) :
+  (forall name content l g, fs name = Some content -> In l (lines_of content) ->
+                            match_command l = Some (CInput, g) -> rank g < rank name) ->
+  forall fuel top, rank top < fuel -> doc_status fuel fs top <> Deep.
+Proof.
+  intros HA. unfold doc_status. induction fuel as [|f IH]; intros top Hr; [lia|].
+  cbn [expand]. destruct (fs top) as [content|] eqn:EF; [|discriminate].
+  intros HD. destruct (expand_lines_deep (expand f fs) top (lines_of content) 1 HD) as [l [g (H1 & H2 & H3)]].
+  apply (IH g); [|exact H3]. pose proof (HA top content l g EF H1 H2). lia.
+Qed.
+
+(* ---- non-strict mode reads exactly like capture mode (the reports are printed instead of collected) *)
+Lemma aux_error_lenient k st : aux_error Lenient k st = aux_error Capture k st.
+Proof. unfold aux_error. destruct (a_ctx st); reflexivity. Qed.
+
+Lemma cite_keys_lenient : forall keys st, cite_keys Lenient keys st = cite_keys Capture keys st.
+Proof.
+  induction keys as [|key rest IH]; intros st; cbn [cite_keys]; [reflexivity|].
+  destruct (dict_get (lower key) (a_canon st)) as [ex|].
+  - destruct (str_eqb key ex); cbn [obind]; [apply IH|].
+    rewrite aux_error_lenient. destruct (aux_error Capture (EMismatch key ex) st); cbn [obind]; auto.
+  - cbn [obind]. apply IH.
+Qed.
+
+Lemma parse_lines_lenient rec rec' :
+  (forall n s, rec n s = rec' n s) ->
+  forall lines k st, parse_lines rec Lenient lines k st = parse_lines rec' Capture lines k st.
+Proof.
+  intros HR. induction lines as [|l rest IH]; intros k st; cbn [parse_lines]; [reflexivity|].
+  assert (HL : parse_line rec Lenient l k st = parse_line rec' Capture l k st).
+  { unfold parse_line. destruct (a_ctx st); [|reflexivity].
+    destruct (match_command l) as [[cm vv]|]; [|reflexivity].
+    destruct cm; cbn [handle_command].
+    - apply cite_keys_lenient.
+    - unfold handle_bibdata. destruct (a_data _); [apply aux_error_lenient|reflexivity].
+    - unfold handle_bibstyle. destruct (a_style _); [apply aux_error_lenient|reflexivity].
+    - apply HR. }
+  rewrite HL. destruct (parse_line rec' Capture l k st); cbn [obind]; auto.
+Qed.
+
+Lemma parse_file_lenient fs : forall fuel name top st,
+  parse_file fuel fs Lenient name top st = parse_file fuel fs Capture name top st.
+Proof.
+  induction fuel as [|f IH]; intros name top st; cbn [parse_file]; [reflexivity|].
+  destruct (fs name); [|reflexivity].
+  rewrite (parse_lines_lenient (fun n s => parse_file f fs Lenient n false s)
+                               (fun n s => parse_file f fs Capture n false s)); [reflexivity|].
+  intros n s0. apply IH.
+Qed.
+
+Theorem lenient_is_capture_l fuel fs top : parse_aux fuel fs Lenient top = parse_aux fuel fs Capture top.
+Proof. apply parse_file_lenient. Qed.
